@@ -348,6 +348,15 @@ func c03CheckMul(c c03MulCase) h.Result {
 	ep2.SetEdwardsPoint(p)
 	c03Expect(r, "ExpandedDoubleScalarMulBasepointVartime(reset)", New().ExpandedDoubleScalarMulBasepointVartime(s, ep2, s2), sPs2B)
 
+	// the point handed out by Point() is the caller's: using it as an arithmetic
+	// receiver must not change what the expanded point stands for
+	ep4 := curve.NewExpandedEdwardsPoint(p)
+	hand := ep4.Point()
+	hand.Add(hand, curve.ED25519_BASEPOINT_POINT)
+	c03Expect(r, "ExpandedEdwardsPoint.Point(after-caller-modified-the-returned-point)", ep4.Point(), pr)
+	c03Expect(r, "SetExpanded(after-caller-modified-the-returned-point)", New().SetExpanded(ep4), pr)
+	c03Expect(r, "ExpandedDoubleScalarMulBasepointVartime(after-caller-modified-the-returned-point)", New().ExpandedDoubleScalarMulBasepointVartime(s, ep4, s2), sPs2B)
+
 	// a by-value snapshot of an expanded point keeps computing with its own
 	// point after the original has been re-set, and the original with its new one
 	ep3 := curve.NewExpandedEdwardsPoint(p)
@@ -452,6 +461,18 @@ func c03CheckMSM(c c03MSMCase) h.Result {
 		c03Expect(r, "MultiscalarMulVartime(dirty-receiver)", x.MultiscalarMulVartime(scs, pts), want)
 		x = c03Copy(pts[n-1])
 		c03Expect(r, "MultiscalarMul(dirty-receiver)", x.MultiscalarMul(scs, pts), want)
+		// the receiver IS one of the input points (first, last, or a middle one)
+		for _, k := range []int{0, n - 1, n / 2} {
+			al := append([]*curve.EdwardsPoint(nil), pts...)
+			al[k] = c03Copy(pts[k])
+			c03Expect(r, "MultiscalarMul(receiver-is-an-input-point)", al[k].MultiscalarMul(scs, al), want)
+			al[k] = c03Copy(pts[k])
+			c03Expect(r, "MultiscalarMulVartime(receiver-is-an-input-point)", al[k].MultiscalarMulVartime(scs, al), want)
+			if k >= c.Static {
+				al[k] = c03Copy(pts[k])
+				c03Expect(r, "ExpandedMultiscalarMulVartime(receiver-is-a-dynamic-point)", al[k].ExpandedMultiscalarMulVartime(scs[:c.Static], eps, scs[c.Static:], al[c.Static:]), want)
+			}
+		}
 	}
 
 	// operands untouched (all of them for small n, a sample otherwise)
